@@ -50,7 +50,7 @@ def sym_key(s):
     return ("t", s["t"]) if "t" in s else ("n", s["n"])
 
 
-def random_grammar(rng, names="plain", payload="usize", derive=True, max_nt=4, max_t=4, maxlen=4, min_t=0):
+def random_grammar(rng, names="plain", payload="usize", derive=True, max_nt=4, max_t=4, maxlen=4, min_t=0, self_types=False):
     n_nt = rng.randint(1, max_nt)
     n_t = rng.randint(min_t, max_t)
     if names == "plain":
@@ -86,6 +86,12 @@ def random_grammar(rng, names="plain", payload="usize", derive=True, max_nt=4, m
             ty = "usize"
         else:
             ty = rng.choice(TYPES_SIMPLE + TYPES_GENERIC)
+            if self_types and rng.random() < 0.12:
+                # a payload type spelled like something the file itself declares — a nonterminal, bare, boxed or as an
+                # argument: a payload is never a symbol, whatever it is called.  (Only for pools that are not compiled:
+                # the bare form makes an infinitely sized type when the nonterminal contains the terminal.)
+                n = rng.choice(nts)
+                ty = rng.choice([n, n, f"Box<{n}>", f"Vec<{n}>", f"Option<Box<{n}>>"])
         tvs.append({"name": t, "type": ty})
     if payload != "usize" and tvs and rng.random() < 0.35:
         # a second terminal whose name differs from an existing one only in letter case, an underscore
